@@ -165,10 +165,10 @@ EVIDENCE = {
     "C20": dict(
         level_text=("Single-fault errors carry the offending value: asserted inside the layer harnesses (InvalidVersion(nibble), InvalidOffset(size), "
                     "UnsupportedVendorId(v), UnknownAvp(t), UnknownMessageType(c), InvalidResultCodeErrorType(e), IncompleteAVP(t)/InvalidUtf8(t) per kind) "
-                    "for all values. Rendering: to_string() of IncompleteAVP(t) for all 65 536 t (AVPReadError/InvalidUtf8 for t <= 255) against the "
+                    "for all values. Rendering: to_string() of IncompleteAVP(t) for all 65 536 t and of AVPReadError(t) for t <= 255 (InvalidUtf8's rendering, which goes through the same name lookup, exhausts memory and is not decided) against the "
                     "RFC name of the kind that number dispatches to (decimal when unassigned); all other variants render non-empty for every payload."),
         level_note=COMMON_NOTE, functions_encoded=["<DecodeError as Display>::fmt", "avp::avp_name", "decode_avp"] + MSG_FUNCS, stubs=[STUB_UTF8, STUB_GREEDY0, STUB_DECODE],
-        bounds="as C05 for error values; rendering complete for IncompleteAVP, t <= 255 for the two longer messages", outside_claim=["multi-fault messages (any error accepted)"], assumptions=["name table in kani/src/h_err.rs transcribed from the AVP enum / RFC 2661 §4.4"]),
+        bounds="as C05 for error values; rendering complete for IncompleteAVP, t <= 255 for AVPReadError", outside_claim=["multi-fault messages (any error accepted)", "text of InvalidUtf8(t) (same avp_name lookup; formula too large)"], assumptions=["name table in kani/src/h_err.rs transcribed from the AVP enum / RFC 2661 §4.4"]),
 }
 for _k, _v in EVIDENCE.items():
     _v.setdefault("level", "model_checking")
